@@ -149,7 +149,7 @@ def main():
         props = [a.prop]
         verdicts = {}
         for pid in props:
-            r = subprocess.run([os.path.join(VERIF, "bin", "wmcheck"), "-property", pid, "-repo", dst, "-no-evidence", "-verif", VERIF], env=ENV, capture_output=True, text=True)
+            r = subprocess.run([os.environ.get("WMCHECK", os.path.join(VERIF, "bin", "wmcheck")), "-property", pid, "-repo", dst, "-no-evidence", "-verif", VERIF], env=ENV, capture_output=True, text=True)
             lines = [l[:400] for l in r.stdout.splitlines() if l.startswith(("VIOLATION  ", "VIOLATION   ", "UNDECIDED")) or (l.startswith("VIOLATION") and "property=" not in l)]
             verdicts[pid] = {"exit": r.returncode, "violations": lines[:8]}
         meta["static_check"] = verdicts
